@@ -103,6 +103,9 @@ func (g *G) runMatchCase(c *matchCase, reps int) {
 		} else if key != first {
 			c.RepsAgree = false
 		}
+		if i == 0 && g.mode == "c03" && g.chance(0.2) && !yamlishAgree(c) {
+			c.RepsAgree = false
+		}
 		// aliasing probes: distinct maps, and mutating one result changes
 		// neither the inputs nor the other results
 		seen := map[uintptr]bool{mapPtr(bs): true}
@@ -133,6 +136,50 @@ func (g *G) runMatchCase(c *matchCase, reps int) {
 			}
 		}
 	}
+}
+
+// yamlish: the value as a stock YAML decoder hands it over - maps keyed by interface{}, with two members whose keys
+// print alike (1 and "1") in every map
+func yamlish(x interface{}) interface{} {
+	switch v := x.(type) {
+	case map[string]interface{}:
+		m := make(map[interface{}]interface{}, len(v)+2)
+		for k, y := range v {
+			m[k] = yamlish(y)
+		}
+		m[1], m["1"] = "one", "uno"
+		m[true], m["true"] = "yes", "si"
+		return m
+	case []interface{}:
+		a := make([]interface{}, len(v))
+		for i, y := range v {
+			a[i] = yamlish(y)
+		}
+		return a
+	}
+	return x
+}
+
+// yamlishAgree: whatever the matcher makes of such values (it does not know the map type), it makes the same of them
+// every time
+func yamlishAgree(c *matchCase) bool {
+	for series := 0; series < 2; series++ {
+		first := ""
+		for i := 0; i < 4; i++ {
+			var p, f interface{} = yamlish(c.P), yamlish(c.F)
+			if series == 1 {
+				f = deepCopy(c.F, nil) // a YAML pattern against a JSON message
+			}
+			class, res := callMatch(p, f, deepCopy(c.Bs, nil).(map[string]interface{}))
+			key := multisetKey(class, res)
+			if i == 0 {
+				first = key
+			} else if key != first {
+				return false
+			}
+		}
+	}
+	return true
 }
 
 // typedSnap is a deep snapshot that also records the Go type of every scalar
